@@ -1,390 +1,575 @@
 """C05 -- bound-constrained trust-region solver: feasible, descending, honest flag.
 
-  D1  success only behind the convergence test of the returned point's own projected-gradient
-      measure norm(project(y - gradient(y), bounds) - y); tolerance comparison homogeneous;
-  D2  descent proof as for C01 on bound_constrained_trust_region_minimize;
-  D3  feasibility by construction: `project` is a clamp onto [bounds[:,0], bounds[:,1]] whose columns
-      match the column_stack((lower, upper)) built in `solve` with both bounds scaled like the iterate;
-      every return of project_onto_tr is a project(.) value; every Cauchy step reaching the return of
-      find_generalized_cauchy_point is project(.) - x; in solve_spg_subproblem the step changes only
-      by alpha*s with s = project_onto_tr(.) - (x+z) and every alpha is bounded by 1 (through every
-      line-search callee); the driver forms y = x + s and assigns the iterate only from y;
-  D4  NaN polarity as C01;  T6 both trust-region drivers use the same acceptance rule shape.
-Not decided: alpha >= 0, optimality for convex problems, closest-point property beyond the clamp shape,
-behaviour of scipy.optimize.brentq.
+All rules work on the *terms* and *path conditions* computed by the symbolic executor of rules/C05_sym.py (inlining of helpers, nested
+defs and lambdas; decision-tree merges; loops solved by induction), not on the spelling of the source:
+
+  D1  a success exit carries an upper bound of the returned point's own projected-gradient measure
+      norm(project(y - gradient(y), bounds) - y) by the tolerance (equal degrees); the convergence test answers True only under
+      such a bound; parameters are assigned before the solve and after the warm start; settings factories fill fields by name;
+  D2  descent: acceptance => ratio >= c >= 0, denominator of known sign, numerator == objective(old iterate) - objective(new iterate),
+      the reference objective value is an inductive invariant of the loop;
+  D3  feasibility by construction, by *box-point algebra*: values are polynomials over box points clamp(v, lo, hi); a point is
+      feasible iff it is a convex combination (weights sum to 1, each within [0, 1] by interval arithmetic, step lengths >= 0
+      assumed) of points of the driver's box:  `project` returns a box point of [bounds[:,0], bounds[:,1]]; the bounds handed to the
+      driver are column_stack of lower/upper scaled like the start point; every return of project_onto_tr is a box point; every
+      definition of the Cauchy step reaching the return of find_generalized_cauchy_point, added to x, is one; the SPG step keeps
+      x + z a convex combination through every update (which needs every step length <= 1, through every line-search callee);
+      with everything inlined the driver's trial point, its iterate (by induction over the main loop) and every point it returns
+      are box points of the driver's bounds;
+  D4  NaN polarity;  T6 both trust-region drivers use the same acceptance rule shape.
+Not decided: alpha >= 0, optimality for convex problems, closest-point property beyond the clamp shape, behaviour of
+scipy.optimize.brentq, membership in the trust region.
 """
 from __future__ import annotations
 
 import ast
 
 from optilint.cfg import cfg_of
-from optilint.model import dotted, FuncVal, walk_local
 from optilint.core import Incomplete
-from . import trustregion as tr
-from .common import src, expand, canon, same, calls_in, single_def, def_value, const_value
+from . import C05_sym as S
+from . import C05_tr as TR
+from .C05_sym import mk, leaves, show, convex, item, term, poly
 
 LEVEL = "other"
 RULE_TEXT = ("obligations = (return statement x guarded-success) + (ratio definition x sign proof) + "
              "(projection/step definition x feasibility provenance) + NaN polarity + parameter ordering")
-EXPLANATION = ("Path-sensitive static analysis of optimism/TrustRegionSPG.py: guarded success returns, descent sign proof, "
-               "NaN polarity (shared with C01) and a provenance analysis showing that every point the driver can report "
-               "is a box projection, or a convex combination x+z+alpha*s of feasible points with alpha <= 1. "
+EXPLANATION = ("Symbolic execution of optimism/TrustRegionSPG.py on hash-consed terms (helpers, nested defs and lambdas inlined; decision-tree "
+               "merges; loops solved by induction with box-point and relational invariants): guarded success returns, descent sign proof, "
+               "NaN polarity and a box-point algebra showing that every point the driver can report is a convex combination of box "
+               "projections (step lengths <= 1 by interval arithmetic through every line-search callee). "
                "Numerical optimality and the root finder inside project_onto_tr are not decided.")
 
 SPG = "optimism.TrustRegionSPG"
-DRV = tr.Driver(SPG, "bound_constrained_trust_region_minimize", "projected-gradient", "C05")
+DRIVER = "bound_constrained_trust_region_minimize"
 
 
 def run(ctx):
     ctx.need_module(SPG)
-    ctx.guard(tr.d1_flag, ctx, DRV)
+    ctx.guard(d1, ctx)
     ctx.guard(d1_params, ctx)
-    ctx.guard(tr.d2_descent, ctx, DRV)
-    ctx.guard(tr.d3_reported, ctx, DRV)
-    ctx.guard(tr.d4_nan, ctx, DRV)
+    ctx.guard(d2, ctx)
+    ctx.guard(d3_reported, ctx)
+    ctx.guard(d4, ctx)
     ctx.guard(d3_feasible, ctx)
     ctx.guard(t6_siblings, ctx)
-    from .common import settings_wiring
-    ctx.guard(settings_wiring, ctx, "D1/T5-settings-wiring", SPG)
+    ctx.guard(TR.settings_wiring, ctx, "D1/T5-settings-wiring", SPG)
     ctx.trust("IEEE-754: every ordered comparison with a NaN operand is false")
     ctx.trust("max(lb, min(x, ub)) lies in [lb, ub] whenever lb <= ub; a convex combination of two points of a box lies in the box")
     ctx.assume("0 <= alpha (step lengths of the SPG line search are non-negative) -- not proved statically")
     ctx.assume("feasible start, lower <= upper (property text)")
 
 
+def d1(ctx):
+    R = TR.get_run(ctx, SPG, DRIVER)
+    TR.d1_flag(ctx, R, "projected-gradient")
+    TR.d1_conv(ctx, SPG)
+
+
+def d2(ctx):
+    TR.d2_descent(ctx, TR.get_run(ctx, SPG, DRIVER))
+
+
+def d3_reported(ctx):
+    TR.d3_reported(ctx, TR.get_run(ctx, SPG, DRIVER))
+
+
+def d4(ctx):
+    TR.d4_nan(ctx, TR.get_run(ctx, SPG, DRIVER))
+
+
 def d1_params(ctx):
-    rule = "D1/T2-parameters-before-solve"
-    def is_solve(n):
-        return any(isinstance(c, ast.Call) and isinstance(c.func, ast.Name) and c.func.id == DRV.func for c in ast.walk(n.ast))
-    tr.params_before_solve(ctx, rule, f"{SPG}:solve", 0, is_solve)
+    TR.params_before_solve(ctx, "D1/T2-parameters-before-solve", SPG, "solve", ctx.need(f"{SPG}:{DRIVER}"))
 
 
-# ------------------------------------------------------------------ D3 feasibility provenance
+# ------------------------------------------------------------------ D3 feasibility by construction
 
-def _is_project_call(e, bounds_name="bounds"):
-    return isinstance(e, ast.Call) and isinstance(e.func, ast.Name) and e.func.id == "project" and len(e.args) == 2 \
-        and isinstance(e.args[1], ast.Name) and e.args[1].id == bounds_name
+RULE9 = "D3/T9-feasible-by-construction"
+
+
+def _box(bounds):
+    return (S.col(bounds, 0), S.col(bounds, 1))
+
+
+def _in_box(v, box, offset=None):
+    """Every case of the value tree v (plus offset) is a convex combination of points of `box` -> (verdict True/False/None, reason)"""
+    verdict, why = True, ""
+    if offset is not None:
+        v = S.add(v, offset)
+    for (cs, leaf) in leaves(v):
+        r = convex(leaf, facts=cs)
+        if r.ok and r.box is not None and (r.box[0].key, r.box[1].key) == (box[0].key, box[1].key):
+            continue
+        if r.ok and r.box is not None:
+            cols = [(b.a[1] if b.k == "col" else show(b)) for b in r.box]
+            reason = f"it is clamped between `{show(r.box[0])}` and `{show(r.box[1])}` (lower={cols[0]}, upper={cols[1]}), not between the bounds' lower and upper columns"
+        else:
+            reason = r.why
+        cond = " and ".join(("" if p else "not ") + S.brief(c, 50, 2) for (c, p) in cs[:2])
+        reason = f"`{S.brief(leaf, 120, 3)}`: {reason}" + (f" (case: {cond})" if cond else "")
+        if r.unknown and verdict is True:
+            verdict, why = None, reason
+        elif not r.unknown and verdict is not False:
+            verdict, why = False, reason
+    return verdict, why
+
+
+def _interp(ctx, **kw):
+    I = S.Interp(ctx, inline=lambda s: s.module.name == SPG, max_depth=9, **kw)
+    I.compact_above = 1
+    return I
+
+
+def _contributing(scope, ret_node, expr):
+    """Statements that (through copies `a = b`, conditional copies and in-place updates) define the names of `expr` at the return."""
+    cfg = cfg_of(scope)
+    rn = cfg.node_for(ret_node)
+    out, seen = [], set()
+    work = [(rn, n.id) for n in ast.walk(expr) if isinstance(n, ast.Name)] if rn is not None else []
+    while work:
+        node, name = work.pop()
+        for d in cfg.reaching(node, name):
+            if d is cfg.entry or (id(d), name) in seen:
+                continue
+            seen.add((id(d), name))
+            if d.kind != "stmt" or d.ast is None:
+                continue
+            if d.ast not in out:
+                out.append(d.ast)
+            a = d.ast
+            val = getattr(a, "value", None)
+            if isinstance(a, ast.AugAssign):
+                work.append((d, name))
+            elif isinstance(a, ast.Assign):
+                v = val
+                if isinstance(a.targets[0], ast.Tuple) and isinstance(v, ast.Tuple) and len(a.targets[0].elts) == len(v.elts):
+                    for t_, v_ in zip(a.targets[0].elts, v.elts):
+                        if isinstance(t_, ast.Name) and t_.id == name:
+                            v = v_
+                cands = [v] if not isinstance(v, ast.IfExp) else [v.body, v.orelse]
+                for c in cands:
+                    if isinstance(c, ast.Name):
+                        work.append((d, c.id))
+    return sorted(out, key=lambda s: getattr(s, "lineno", 0))
+
+
+def _events_for(I, fr, stmt, name=None, first=False):
+    src = I.events if not first else [e for r in I.loops.values() if r.frame == fr.id for e in r.first_events]
+    return [e for e in src if e["frame"] == fr.id and e["kind"] == "assign" and e["node"] is stmt and (name is None or e["name"] == name)]
+
+
+def _txt(st, n=60):
+    try:
+        return ast.unparse(st).split("\n")[0][:n]
+    except Exception:
+        return "?"
 
 
 def d3_feasible(ctx):
-    rule = "D3/T9-feasible-by-construction"
-    # --- project is a clamp
+    rule = RULE9
+    B = mk("sym", "bounds")
+    box = _box(B)
+    # ---- project returns a box point of [bounds[:,0], bounds[:,1]]
     pj = ctx.need(f"{SPG}:project")
-    cfg = cfg_of(pj)
-    xp, bp = pj.params()[0], pj.params()[1]
-    for r in cfg.returns():
-        e = expand(cfg, r, r.ast.value, stop=(bp,))
-        ok, lo, hi = _clamp_shape(e)
-        cols = None
-        if ok:
-            cols = (_col_of(lo, bp), _col_of(hi, bp))
-        good = ok and cols == (0, 1)
-        ctx.decide(rule, good, pj, r.ast, construct="project-is-clamp",
-                   detail=f"returns clamp of the argument between {bp}[:,0] and {bp}[:,1]",
-                   bad_detail=f"project returns `{src(e)}`: not max(lower, min(x, upper)) with lower={bp}[:,0], upper={bp}[:,1]"
-                              + (f" (columns used: lower={cols[0]}, upper={cols[1]})" if cols else ""))
-    # --- bounds = column_stack((scaled lower, scaled upper)) in solve
+    pp = pj.params()
+    Bp = mk("sym", pp[1])
+    I = _interp(ctx)
+    I.compact_above = 10 ** 6
+    res, fr = I.run(pj, {})
+    for ev in [e for e in I.events if e["kind"] == "return" and e["frame"] == fr.id]:
+        ok, why = _in_box(ev["value"], _box(Bp))
+        if ok is True:
+            ls = [l for (_, l) in leaves(ev["value"])]
+            if not all(l.k == "clamp" for l in ls):
+                ok, why = None, f"`{S.brief(ev['value'], 100, 3)}` is feasible but not a single clamp (closest point not decided)"
+            elif not all(l.a[0].key == mk("sym", pp[0]).key for l in ls):
+                ok, why = False, f"`{S.brief(ev['value'], 100, 3)}` clamps something else than the argument `{pp[0]}`"
+        ctx.decide(rule, ok, pj, ev["node"], construct="project-is-clamp",
+                   detail=f"returns the argument clamped between {pp[1]}[:,0] and {pp[1]}[:,1]",
+                   bad_detail=f"project returns {why or show(ev['value'])[:120]}: not max(lower, min(x, upper)) with lower={pp[1]}[:,0], upper={pp[1]}[:,1]")
+    # ---- bounds = column_stack((scaled lower, scaled upper)) in solve, scaled like the start point
     sv = ctx.need(f"{SPG}:solve")
-    scfg = cfg_of(sv)
-    params = sv.params()
-    lowp = [p for p in params if "lower" in p.lower()]
-    upp = [p for p in params if "upper" in p.lower()]
+    drv = ctx.need(f"{SPG}:{DRIVER}")
+    dps = drv.params()
+    sps = sv.params()
+    lowp = [p for p in sps if "lower" in p.lower()] or sps[3:4]
+    upp = [p for p in sps if "upper" in p.lower()] or sps[4:5]
     if len(lowp) != 1 or len(upp) != 1:
         raise Incomplete("solve(): lower/upper bound parameters not identified")
-    calls = [n for n in scfg.nodes if n.kind == "stmt" and n.ast is not None and
-             any(isinstance(c, ast.Call) and isinstance(c.func, ast.Name) and c.func.id == DRV.func for c in ast.walk(n.ast))]
-    drv = ctx.need(f"{SPG}:{DRV.func}")
-    for n in calls:
-        call = [c for c in ast.walk(n.ast) if isinstance(c, ast.Call) and isinstance(c.func, ast.Name) and c.func.id == DRV.func][0]
-        b = call.args[2] if len(call.args) > 2 else None
-        be = expand(scfg, n, b)
-        ok = False
-        shown = src(be)
-        if isinstance(be, ast.Call) and (dotted(be.func) or "").endswith("column_stack") and be.args and isinstance(be.args[0], ast.Tuple) \
-                and len(be.args[0].elts) == 2:
-            lo, hi = be.args[0].elts
-            ok = same(lo, f"objective.scaling * {lowp[0]}") and same(hi, f"objective.scaling * {upp[0]}")
-        ctx.decide(rule, ok, sv, call, construct="bounds-columns-and-scaling",
-                   detail="bounds = column_stack((scaling*lower, scaling*upper))",
-                   bad_detail=f"bounds passed to the minimizer are `{shown}`: expected column_stack((objective.scaling*{lowp[0]}, objective.scaling*{upp[0]}))")
-        x0 = expand(scfg, n, call.args[1]) if len(call.args) > 1 else None
-    # --- project_onto_tr returns only projected values
-    pt = ctx.need(f"{SPG}:project_onto_tr")
-    pcfg = cfg_of(pt)
-    for r in pcfg.returns():
-        e = expand(pcfg, r, r.ast.value, stop=tuple(pt.params()))
-        ctx.decide(rule, _is_project_call(e), pt, r.ast, construct=f"project_onto_tr-return:{src(r.ast.value)[:40]}",
-                   detail="returns project(., bounds)",
-                   bad_detail=f"project_onto_tr returns `{src(e)}`, which is not a box projection (the point may leave the feasible set)")
-    # --- generalized Cauchy point: every definition of the step reaching the return is project(.) - x
-    gc = ctx.need(f"{SPG}:find_generalized_cauchy_point")
-    gcfg = cfg_of(gc)
-    xg = gc.params()[0]
-    for r in gcfg.returns():
-        v = r.ast.value
-        if not (isinstance(v, ast.Tuple) and len(v.elts) == 2 and isinstance(v.elts[1], ast.Name)):
-            ctx.undecided(rule, gc, r.ast, construct="cauchy-return", detail="unexpected return shape")
-            continue
-        sname = v.elts[1].id
-        for D in gcfg.reaching(r, sname):
-            ok, shown = _is_projected_step(gcfg, D, sname, xg)
-            ctx.decide(rule, ok, gc, D.ast, construct=f"cauchy-step:{src(D.ast)[:60]}",
-                       detail=f"step = project(.) - {xg}",
-                       bad_detail=f"a Cauchy step reaching the return is defined as `{shown}`, not project(., bounds) - {xg}")
-    # --- SPG subproblem
-    sp = ctx.need(f"{SPG}:solve_spg_subproblem")
-    spcfg = cfg_of(sp)
-    xs = sp.params()[0]
-    zinit = sp.params()[1]
-    znames = set()
-    for r in spcfg.returns():
-        v = r.ast.value
-        if isinstance(v, ast.Tuple) and isinstance(v.elts[0], ast.Name):
-            znames.add(v.elts[0].id)
+    I = S.Interp(ctx, opaque=[drv], inline=lambda s: s.module.name == SPG and not TR.has_loop(s))
+    res, fr = I.run(sv, {})
+    calls = [e for e in I.events if e["kind"] == "call" and e.get("callee_scope") is drv]
+    if not calls:
+        raise Incomplete("solve(): call of the minimizer not found")
+    for e in calls:
+        b = (e.get("bound") or {})
+        bt, x0t = b.get(dps[2]), b.get(dps[1])
+        ok, shown = False, "?"
+        if bt is not None and x0t is not None:
+            lo, hi = S.col(bt, 0), S.col(bt, 1)
+            cl, cu = _factor(lo, mk("sym", lowp[0])), _factor(hi, mk("sym", upp[0]))
+            cx = _coefficient(x0t, mk("sym", sps[1]))
+            shown = f"lower column `{show(lo)[:60]}`, upper column `{show(hi)[:60]}`, start point `{show(x0t)[:80]}`"
+            if cl is None and cu is None and _factor(lo, mk("sym", upp[0])) is not None and _factor(hi, mk("sym", lowp[0])) is not None:
+                ok = False         # the lower column is built from the upper bounds and vice versa
+                shown += " (columns exchanged)"
+            elif cl is None or cu is None or cx is None:
+                ok = None          # a form of scaling this rule does not read
+            else:
+                ok = cl == cu == cx and not cl.is_zero()
         else:
-            znames.add("?")
-    if len(znames) != 1 or "?" in znames:
-        ctx.refuted(rule, sp, None, construct="spg:returns-step",
-                    detail=f"solve_spg_subproblem returns different things as the step on different exits: {sorted(znames)}")
-        return
-    Z = znames.pop()
-    zdefs = [n for n in spcfg.nodes if n.kind == "stmt" and any(c == Z for (c, w) in spcfg.defs_of(n))]
-    n_aug = 0
-    for D in zdefs:
-        a = D.ast
-        if isinstance(a, ast.Assign) and isinstance(a.value, ast.Name) and a.value.id == zinit:
-            ctx.proved(rule, sp, a, construct="spg:z-init", detail="z starts at the generalized Cauchy step")
+            ok = None
+        ctx.decide(rule, ok, sv, e["node"], construct="bounds-columns-and-scaling",
+                   detail="bounds = column_stack((scaling*lower, scaling*upper)) with the scaling of the start point",
+                   bad_detail=f"bounds passed to the minimizer: {shown}; expected columns (c*{lowp[0]}, c*{upp[0]}) with the factor c that scales the start point {sps[1]}")
+    # ---- project_onto_tr returns only box points
+    pt = ctx.need(f"{SPG}:project_onto_tr")
+    I = _interp(ctx)
+    Bt = mk("sym", pt.params()[2])
+    res, fr = I.run(pt, {})
+    for ev in [e for e in I.events if e["kind"] == "return" and e["frame"] == fr.id]:
+        ok, why = _in_box(ev["value"], _box(Bt))
+        ctx.decide(rule, ok, pt, ev["node"], construct=f"project_onto_tr-return:{_txt(ev['node'].value, 40) if ev['node'].value is not None else ''}",
+                   detail="returns a box projection",
+                   bad_detail=f"project_onto_tr returns {why}, which is not a box projection (the point may leave the feasible set)")
+    # ---- generalized Cauchy point: x + step is a box point, for every definition of the step that reaches the return
+    gc = ctx.need(f"{SPG}:find_generalized_cauchy_point")
+    gps = gc.params()
+    Bg = mk("sym", gps[3])
+    Xg = mk("feas", gps[0], *_box(Bg))
+    I = _interp(ctx)
+    res, fr = I.run(gc, {gps[0]: Xg})
+    _step_function(ctx, I, fr, gc, 1, Xg, _box(Bg), "cauchy", f"{gps[0]} + step is a box projection")
+    # ---- SPG subproblem: x + z stays a convex combination of box points
+    sp = ctx.need(f"{SPG}:solve_spg_subproblem")
+    ss = sp.params()
+    Bs = mk("sym", ss[3])
+    Xs = mk("feas", ss[0], *_box(Bs))
+    Cs = mk("feas", f"{ss[0]}+{ss[1]}", *_box(Bs))
+    I = _interp(ctx)
+    res, fr = I.run(sp, {ss[0]: Xs, ss[1]: S.sub(Cs, Xs)})
+    _step_function(ctx, I, fr, sp, 0, Xs, _box(Bs), "spg", f"{ss[0]} + step is a convex combination of box points")
+    _step_lengths(ctx, I, fr, sp, Xs, _box(Bs))
+    # every projection onto box-and-trust-region made for the subproblem is centred at the subproblem's x, with its bounds and radius
+    pcalls = [e for e in I.events if e["kind"] == "call" and e.get("callee_scope") is pt and e.get("bound")]
+    seen = set()
+    for e in pcalls:
+        key = (e["scope"].qualname, getattr(e["node"], "lineno", 0))
+        if key in seen:
             continue
-        if isinstance(a, ast.AugAssign) and isinstance(a.op, ast.Add):
-            n_aug += 1
-            val = a.value
-            fs = []
-            if isinstance(val, ast.BinOp) and isinstance(val.op, ast.Mult):
-                fs = [val.left, val.right]
-            names = [f.id for f in fs if isinstance(f, ast.Name)]
-            if len(names) != 2:
-                ctx.refuted(rule, sp, a, construct="spg:z-update", detail=f"step update `{src(a)}` is not step += alpha*s")
-                continue
-            # which is the direction (defined as project_onto_tr(..) - xNew) and which the step length
-            sdir, alpha = None, None
-            for nm in names:
-                d = single_def(spcfg, D, nm)
-                v = def_value(d, nm) if d is not None else None
-                if isinstance(v, ast.BinOp) and isinstance(v.op, ast.Sub) and isinstance(v.left, ast.Call) \
-                        and isinstance(v.left.func, ast.Name) and v.left.func.id == "project_onto_tr":
-                    sdir = (nm, d, v)
-                else:
-                    alpha = nm
-            if sdir is None or alpha is None:
-                ctx.refuted(rule, sp, a, construct="spg:z-update",
-                            detail=f"in `{src(a)}` no factor is a direction of the form project_onto_tr(.) - (x+z)")
-                continue
-            nm, d, v = sdir
-            # direction ends at a feasible point: minus operand is xNew = x + z with the same z
-            base = v.right
-            be = expand(spcfg, d, base, stop=(xs, Z))
-            okb = same(be, f"{xs} + {Z}")
-            # the trust region centre given to project_onto_tr is x, bounds are the bounds
-            c = v.left
-            okc = len(c.args) >= 4 and src(c.args[1]) == xs and src(c.args[2]) == "bounds"
-            # z and xNew unchanged between direction and update
-            okz = spcfg.same_value(Z, d, D)
-            ctx.decide(rule, okb and okc and okz, sp, d.ast, construct="spg:direction-ends-feasible",
-                       detail=f"{nm} = project_onto_tr(., {xs}, bounds, .) - ({xs} + {Z})",
-                       bad_detail=f"SPG direction `{src(d.ast)}`: base point `{src(be)}`, centre/bounds ok={okc}; x+z+s is not a projected point")
-            # every definition of alpha reaching the update is <= 1
-            for Da in spcfg.reaching(D, alpha):
-                okA, why = _bounded_by_one(ctx, sp, spcfg, Da, alpha)
-                ctx.decide(rule, okA, sp, Da.ast, construct=f"spg:step-length<=1:{src(Da.ast)[:60]}",
-                           detail=f"`{alpha}` bounded by 1: {why}",
-                           bad_detail=f"step length `{alpha}` defined by `{src(Da.ast)}` is not bounded by 1 ({why}); x+z+alpha*s can overshoot the projected point and leave the box / trust region")
+        seen.add(key)
+        b = e["bound"]
+        tp = pt.params()
+        centre, bnds, radius = b.get(tp[1]), b.get(tp[2]), b.get(tp[3])
+        okc = centre is not None and centre.key == Xs.key
+        okb = bnds is not None and bnds.key == Bs.key
+        okr = radius is not None and len(ss) > 6 and radius.key == mk("sym", ss[6]).key
+        ctx.decide(rule, okc and okb and okr, e["scope"], e["node"], construct=f"spg:projection-centre:{_txt(e['node'], 50)}",
+                   detail=f"project_onto_tr(., {ss[0]}, {ss[3]}, {ss[6] if len(ss) > 6 else '?'})",
+                   bad_detail=f"the projection is made around `{S.brief(centre, 60, 2) if centre is not None else '?'}` with bounds `{S.brief(bnds, 40, 2) if bnds is not None else '?'}` "
+                              f"and radius `{S.brief(radius, 40, 2) if radius is not None else '?'}`; expected the subproblem's {ss[0]}, {ss[3]} and {ss[6] if len(ss) > 6 else 'radius'} "
+                              f"(the step would be measured from another centre or leave the trust region)")
+    # ---- the driver with everything inlined: trial point, iterate (by induction) and returned points are box points
+    Bd = mk("sym", dps[2])
+    X0 = mk("feas", dps[1], *_box(Bd))
+    I = _interp(ctx)
+    res, fr = I.run(drv, {dps[1]: X0})
+    if I.notes:
+        raise Incomplete(I.notes[0])
+    R = TR.get_run(ctx, SPG, DRIVER)
+    accepts = [e for e in I.events if e["frame"] == fr.id and e["kind"] == "assign" and e["name"] == R.iterate
+               and any(n is e["node"] for n in ast.walk(R.loop.node))]
+    if not accepts:
+        ctx.undecided(rule, drv, None, construct="driver:trial-point", detail="replacement of the iterate not found")
+    for e in accepts:
+        ok, why = _in_box(e["value"], _box(Bd))
+        ctx.decide(rule, ok, drv, e["node"], construct="driver:trial-point",
+                   detail=f"the accepted point is a convex combination of projections onto `{dps[2]}` (Cauchy step and SPG step computed for the iterate)",
+                   bad_detail=f"the accepted point is {why}; it is not provably inside `{dps[2]}`")
+    for e in [e for e in I.events if e["frame"] == fr.id and e["kind"] == "return"]:
+        ptv, _ = TR._point_flag(e["value"])
+        if ptv is None:
             continue
-        ctx.refuted(rule, sp, a, construct="spg:z-definition", detail=f"unexpected definition of the step: `{src(a)}`")
-    if n_aug < 1:
-        ctx.undecided(rule, sp, None, construct="spg:z-update", detail="no `z += alpha*s` update found")
-    # --- driver: y = x + s with s from solve_spg_subproblem; iterate only from y (checked in D2.5)
-    dcfg = cfg_of(drv)
-    it = drv.params()[1]
-    _, _, _, _, accepts = tr._roles(ctx, DRV)
-    ynames = {a.ast.value.id for a in accepts if isinstance(a.ast.value, ast.Name)}
-    if len(ynames) != 1:
-        ctx.undecided(rule, drv, None, construct="driver:trial-point", detail=f"accepted values: {sorted(ynames)}")
-        return
-    Y = ynames.pop()
-    for n in dcfg.nodes:
-        if n.kind == "stmt" and isinstance(n.ast, ast.Assign) and any(isinstance(t, ast.Name) and t.id == Y for t in n.ast.targets):
-            e = n.ast.value
-            ok = False
-            shown = src(e)
-            if isinstance(e, ast.BinOp) and isinstance(e.op, ast.Add):
-                names = [x.id for x in (e.left, e.right) if isinstance(x, ast.Name)]
-                if it in names and len(names) == 2:
-                    sn = [x for x in names if x != it][0]
-                    ds = dcfg.reaching(n, sn)
-                    ok = len(ds) == 1 and "solve_spg_subproblem" in src(ds[0].ast) and \
-                        isinstance(ds[0].ast.targets[0], ast.Tuple) and isinstance(ds[0].ast.targets[0].elts[0], ast.Name) \
-                        and ds[0].ast.targets[0].elts[0].id == sn
-                    if ok:
-                        call = [c for c in ast.walk(ds[0].ast) if isinstance(c, ast.Call) and isinstance(c.func, ast.Name) and c.func.id == "solve_spg_subproblem"][0]
-                        a = [src(x) for x in call.args]
-                        ok = a[0] == it and a[3] == "bounds" and dcfg.same_value(it, ds[0], n)
-                        # Cauchy step argument comes from find_generalized_cauchy_point(x, ..., bounds, ...)
-                        cp = call.args[1]
-                        cds = dcfg.reaching(ds[0], cp.id) if isinstance(cp, ast.Name) else []
-                        okcp = len(cds) == 1 and "find_generalized_cauchy_point" in src(cds[0].ast)
-                        if okcp:
-                            c2 = [c for c in ast.walk(cds[0].ast) if isinstance(c, ast.Call) and isinstance(c.func, ast.Name) and c.func.id == "find_generalized_cauchy_point"][0]
-                            okcp = src(c2.args[0]) == it and src(c2.args[3]) == "bounds" and \
-                                isinstance(cds[0].ast.targets[0], ast.Tuple) and src(cds[0].ast.targets[0].elts[1]) == cp.id
-                        ok = ok and okcp
-            ctx.decide(rule, ok, drv, n.ast, construct="driver:trial-point",
-                       detail=f"y = {it} + step of solve_spg_subproblem({it}, cauchy step of find_generalized_cauchy_point({it},..), ., bounds, ...)",
-                       bad_detail=f"trial point `{shown}` is not x + the SPG step computed for x within `bounds`")
+        ok, why = _in_box(ptv, _box(Bd))
+        ctx.decide(rule, ok, drv, e["node"], construct=f"driver:returned-point:{TR._short(e['node'])}",
+                   detail="the returned point is the feasible start, a box point or the iterate (a box point by induction over the main loop)",
+                   bad_detail=f"the returned point is {why}; it is not provably inside `{dps[2]}`")
 
 
-def _clamp_shape(e):
-    """max(lo, min(x, hi)) / min(hi, max(x, lo)) / np.clip(x, lo, hi) -> (True, lo, hi)"""
-    def nm(c):
-        return (dotted(c.func) or "").split(".")[-1] if isinstance(c, ast.Call) else None
-    if nm(e) in ("maximum", "max") and len(e.args) == 2:
-        for i in (0, 1):
-            inner, lo = e.args[i], e.args[1 - i]
-            if nm(inner) in ("minimum", "min") and len(inner.args) == 2:
-                for j in (0, 1):
-                    hi = inner.args[j]
-                    x = inner.args[1 - j]
-                    if isinstance(x, ast.Name) and not isinstance(hi, ast.Name):
-                        return True, lo, hi
-                    if isinstance(x, ast.Name) and isinstance(hi, (ast.Subscript,)):
-                        return True, lo, hi
-    if nm(e) in ("minimum", "min") and len(e.args) == 2:
-        for i in (0, 1):
-            inner, hi = e.args[i], e.args[1 - i]
-            if nm(inner) in ("maximum", "max") and len(inner.args) == 2:
-                for j in (0, 1):
-                    lo = inner.args[j]
-                    x = inner.args[1 - j]
-                    if isinstance(x, ast.Name) and isinstance(lo, ast.Subscript):
-                        return True, lo, hi
-    if nm(e) == "clip" and len(e.args) == 3:
-        return True, e.args[1], e.args[2]
-    return False, None, None
+def _factor(t, sym):
+    """t == c * sym -> Poly c (in the other atoms) else None"""
+    if not S.is_num(t) or t.k == "ite":
+        return None
+    p = poly(t)
+    if len(p.t) != 1:
+        return None
+    return _coefficient(t, sym)
 
 
-def _col_of(e, bp):
-    if isinstance(e, ast.Subscript) and isinstance(e.value, ast.Name) and e.value.id == bp and isinstance(e.slice, ast.Tuple) \
-            and len(e.slice.elts) == 2:
-        return const_value(e.slice.elts[1])
-    return None
+def _coefficient(t, sym):
+    """coefficient polynomial of the first-degree occurrences of sym in the polynomial t (None when sym occurs otherwise or not at all)"""
+    from optilint.expr import Poly
+    if t.k == "ite":
+        cs = [_coefficient(l, sym) for (_, l) in leaves(t)]
+        return cs[0] if cs and all(c is not None and c == cs[0] for c in cs) else None
+    if not S.is_num(t):
+        return None
+    c = Poly()
+    found = False
+    for m, k in poly(t).t.items():
+        d = dict(m)
+        if sym.key in d:
+            if d[sym.key] != 1:
+                return None
+            found = True
+            c = c + Poly({tuple((a, e) for (a, e) in m if a != sym.key): k})
+    return c if found else None
 
 
-def _is_projected_step(cfg, D, sname, xname):
-    a = D.ast
-    v = None
-    if isinstance(a, ast.Assign):
-        v = def_value(D, sname)
-    if v is None:
-        return False, src(a)
-    if isinstance(v, ast.Name):
-        # s = sTry : follow
-        ds = cfg.reaching(D, v.id)
-        res = [_is_projected_step(cfg, d, v.id, xname) for d in ds]
-        return (bool(res) and all(r[0] for r in res)), src(a)
-    ok = isinstance(v, ast.BinOp) and isinstance(v.op, ast.Sub) and _is_project_call(v.left) and \
-        isinstance(v.right, ast.Name) and v.right.id == xname
-    return ok, src(v)
+def _step_function(ctx, I, fr, scope, index, X, box, tag, what):
+    """Function returning (.., step, ..): every return and every contributing definition of the returned step satisfies X + step in box."""
+    rule = RULE9
+    rets = [e for e in I.events if e["kind"] == "return" and e["frame"] == fr.id]
+    if not rets:
+        ctx.undecided(rule, scope, None, construct=f"{tag}-return", detail="no return")
+    done = set()
+    for ev in rets:
+        v = ev["value"]
+        elt = None
+        if isinstance(ev["node"].value, ast.Tuple) and len(ev["node"].value.elts) > index:
+            elt = ev["node"].value.elts[index]
+        step = item(v, index)
+        ok, why = _in_box(step, box, offset=X)
+        ctx.decide(rule, ok, scope, ev["node"], construct=f"{tag}-return:{_txt(ev['node'], 50)}", detail=what,
+                   bad_detail=f"the step returned here gives the point {why}")
+        if elt is None:
+            continue
+        for st in _contributing(scope, ev["node"], elt):
+            if id(st) in done:
+                continue
+            done.add(id(st))
+            evs = _events_for(I, fr, st)
+            names = {n.id for n in ast.walk(elt) if isinstance(n, ast.Name)}
+            flow = [e for e in evs]
+            if not flow:
+                continue
+            verdict, why = True, ""
+            for e in flow:
+                o, w = _in_box(e["value"], box, offset=X)
+                if o is False or (o is None and verdict is True):
+                    verdict, why = o, w
+            if verdict is not True:
+                # say it on the first iteration of the enclosing loop, where the values are the exact initial ones
+                for e in _events_for(I, fr, st, first=True):
+                    o, w = _in_box(e["value"], box, offset=X)
+                    if o is not True:
+                        why = w + " (first iteration)"
+                        break
+            ctx.decide(rule, verdict, scope, st, construct=f"{tag}-step:{_txt(st)}", detail=what,
+                       bad_detail=f"a definition of the step that reaches the return, `{_txt(st, 80)}`, gives the point {why}")
 
 
-def _bounded_by_one(ctx, scope, cfg, D, alpha, depth=3):
-    a = D.ast
-    v = def_value(D, alpha) if isinstance(a, ast.Assign) else None
-    if v is None:
-        return False, "not a plain assignment"
-    return _expr_le_one(ctx, scope, cfg, D, v, depth)
-
-
-def _expr_le_one(ctx, scope, cfg, node, v, depth):
-    if isinstance(v, ast.Constant) and isinstance(v.value, (int, float)):
-        return (v.value <= 1), f"literal {v.value}"
-    if isinstance(v, ast.IfExp):
-        a = _expr_le_one(ctx, scope, cfg, node, v.body, depth)
-        b = _expr_le_one(ctx, scope, cfg, node, v.orelse, depth)
-        return (a[0] and b[0]), f"({a[1]}) if . else ({b[1]})"
-    if isinstance(v, ast.Call):
-        d = (dotted(v.func) or "").split(".")[-1]
-        if d in ("min", "minimum") and len(v.args) == 2:
-            for x in v.args:
-                c = const_value(x)
-                if c is not None and c <= 1:
-                    return True, f"min(., {c})"
-            return False, "min without a constant <= 1"
-        # call of repo function(s): every return of every callee must be bounded
-        if depth > 0:
-            vals = ctx.cg.expand(ctx.repo.resolve(v.func, scope))
-            fvs = [x for x in vals if isinstance(x, FuncVal)]
-            if fvs and len(fvs) == len(vals):
-                why = []
-                allok = True
-                for fv in fvs:
-                    ccfg = cfg_of(fv.scope)
-                    for r in ccfg.returns():
-                        ok, w = _expr_le_one(ctx, fv.scope, ccfg, r, expand(ccfg, r, r.ast.value), depth - 1)
-                        why.append(f"{fv.scope.name}: {w}")
-                        allok = allok and ok
-                return allok, "; ".join(why)
-        return False, f"call `{src(v)[:50]}` with unbounded result"
-    if isinstance(v, ast.Name):
-        ds = cfg.reaching(node, v.id)
-        res = [_bounded_by_one(ctx, scope, cfg, d, v.id, depth) for d in ds if d is not node]
-        if res:
-            return all(r[0] for r in res), "; ".join(r[1] for r in res)
-    return False, f"`{src(v)[:50]}` has no upper bound 1"
+def _step_lengths(ctx, I, fr, scope, X, box):
+    """The weight a step update gives to the newly projected point is the step length: each of its definitions is bounded by 1.
+    Looked at on the first iteration of each loop (exact initial values) and on the final pass."""
+    rule = RULE9
+    seen = set()
+    sources = [[e for e in r.first_events if e["frame"] == fr.id] for r in I.loops.values() if r.frame == fr.id]
+    sources.append([e for e in I.events if e["frame"] == fr.id])
+    for evs in sources:
+        assigns = [e for e in evs if e["kind"] == "assign"]
+        for e in assigns:
+            old, new = e.get("old"), e["value"]
+            if old is None or old is S.UNBOUND:
+                continue
+            if not all(S.is_num(l) for (_, l) in leaves(old)) or not all(S.is_num(l) for (_, l) in leaves(new)):
+                continue
+            oldc = leaves(S.add(old, X))
+            oldp = [l for (_, l) in oldc]
+            fo = {a for l in oldp for a in poly(l).atoms() if term(a).k in S.F_KINDS}
+            if not fo or not all(convex(l, facts=cs).ok for (cs, l) in oldc):
+                continue                       # not an update of a feasible point
+            weights = []                       # (conditions, weight term) of the newly projected point, per case
+            for (cs, l) in leaves(S.add(new, X)):
+                for m, c in poly(l).t.items():
+                    fs = [a for (a, _) in m if term(a).k in S.F_KINDS]
+                    if len(fs) == 1 and fs[0] not in fo:
+                        weights.append((cs, S.num(type(poly(l))({tuple((a, k) for (a, k) in m if a != fs[0]): c}))))
+            if not weights:
+                continue
+            failing = {}
+            for (cs, w) in weights:
+                lo, hi = S.interval(w, None, cs)
+                if hi > 1:
+                    failing[w.key] = w
+            wkeys = {w.key for (_, w) in weights}
+            named = False
+            for d in assigns:
+                dl = [l for (_, l) in leaves(d["value"])]
+                if not dl or not all(l.key in wkeys for l in dl) or d["node"] is e["node"]:
+                    continue
+                named = True
+                if id(d["node"]) in seen:
+                    continue
+                seen.add(id(d["node"]))
+                bad = [failing[l.key] for l in dl if l.key in failing]
+                verdict = True if not bad else (None if any(S.mentions(b, S._not_understood) for b in bad) else False)
+                ctx.decide(rule, verdict, scope, d["node"], construct=f"spg:step-length<=1:{_txt(d['node'])}",
+                           detail=f"the step length defined by `{_txt(d['node'], 70)}` is bounded by 1 wherever it weights a new projected point",
+                           bad_detail=(f"the step length defined by `{_txt(d['node'], 90)}` can be `{S.brief(bad[0], 140, 3)}`, which is not bounded by 1; "
+                                       f"x+z+alpha*s can overshoot the projected point and leave the box / trust region") if bad else "")
+            if not named and id(e["node"]) not in seen:
+                # an update whose weight is not a named step length: judge the weight itself
+                seen.add(id(e["node"]))
+                bad = list(failing.values())
+                verdict = True if not bad else (None if any(S.mentions(b, S._not_understood) for b in bad) else False)
+                ctx.decide(rule, verdict, scope, e["node"], construct=f"spg:step-length<=1:{_txt(e['node'])}",
+                           detail=f"the weight `{_txt(e['node'], 70)}` gives to the new projected point is bounded by 1",
+                           bad_detail=(f"in `{_txt(e['node'], 90)}` the weight of the new projected point can be `{S.brief(bad[0], 140, 3)}`, which is not bounded by 1") if bad else "")
 
 
 # ------------------------------------------------------------------ T6: drivers agree on acceptance
 
-def _accept_shape(ctx, drv):
-    sc, cfg, iterate, loop, accepts = tr._roles(ctx, drv)
-    shapes = []
-    for acc in accepts:
-        atoms = tr._accept_formula(cfg, acc)
-        rho = tr._find_ratio_var(cfg, acc, atoms)
-        for (c, a, pol) in atoms:
-            e = expand(cfg, c, a, stop=(rho,)) if rho else a
-            if rho and rho in {n.id for n in ast.walk(e) if isinstance(n, ast.Name)}:
-                disj = e.values if isinstance(e, ast.BoolOp) and isinstance(e.op, ast.Or) else [e]
-                sh = []
-                for d in disj:
-                    conj = d.values if isinstance(d, ast.BoolOp) and isinstance(d.op, ast.And) else [d]
-                    row = []
-                    for k in conj:
-                        if isinstance(k, ast.Compare) and isinstance(k.left, ast.Name) and k.left.id == rho:
-                            b = k.comparators[0]
-                            cv = const_value(b)
-                            row.append(("ratio", type(k.ops[0]).__name__, "0" if cv is not None and cv == 0 else src(b)))
-                        elif isinstance(k, ast.Compare):
-                            row.append(("measure", type(k.ops[0]).__name__, "prev"))
-                        else:
-                            row.append(("other", src(k), ""))
-                    sh.append(tuple(sorted(row)))
-                shapes.append(tuple(sorted(sh)))
-    return sc, shapes
-
-
 def t6_siblings(ctx):
     rule = "T6-drivers-agree-on-acceptance"
-    other = tr.Driver("optimism.EquationSolver", "trust_region_minimize", "gradient", "C01")
-    s1, a = _accept_shape(ctx, DRV)
-    s2, b = _accept_shape(ctx, other)
-    ctx.decide(rule, a == b and bool(a), s1, None, construct="acceptance-shape",
-               detail=f"both drivers accept under {a}",
-               bad_detail=f"acceptance rules differ: bound-constrained {a} vs unconstrained {b}")
+    R1 = TR.get_run(ctx, SPG, DRIVER)
+    R2 = TR.get_run(ctx, "optimism.EquationSolver", "trust_region_minimize")
+    t1, t2 = TR.accept_table(ctx, R1), TR.accept_table(ctx, R2)
+    if len(t1) != 1 or len(t2) != 1:
+        ctx.undecided(rule, R1.scope, None, construct="acceptance-shape", detail=f"{len(t1)} / {len(t2)} places where the iterate is replaced")
+        return
+    a, b = t1[0], t2[0]
+    diff = [k for k in a if a[k] is not None and b.get(k) is not None and a[k] != b[k]]
+    unknown = [k for k in a if a[k] is None or b.get(k) is None]
+    show_ = lambda t: ", ".join(f"{k[0]}{'' if k[1] else ' and no decrease of the optimality measure'}" for k in t if t[k])
+    ctx.decide(rule, False if diff else (None if unknown else True), R1.scope, None, construct="acceptance-shape",
+               detail=f"both drivers accept exactly when: {show_(a)}",
+               bad_detail=(f"acceptance rules differ for [{diff[0][0]}, optimality measure {'decreased' if diff[0][1] else 'not decreased'}]: the bound-constrained driver "
+                           f"{'accepts' if a[diff[0]] else 'rejects'}, the unconstrained driver {'accepts' if b[diff[0]] else 'rejects'}") if diff else
+               f"the acceptance condition could not be evaluated for {unknown[:3]}")
+
+
+def _chain(*pairs):
+    """Edit: apply every (old, new) replacement; each `old` must occur exactly once, else the variant is inapplicable."""
+    def f(src):
+        for old, new in pairs:
+            if src.count(old) != 1:
+                return None
+            src = src.replace(old, new)
+        return src
+    return f
+
+
+_REFACTOR_A = [
+    ('def bound_constrained_trust_region_minimize(objective, x, bounds, settings, callback=None):',
+     "def _reduction_ratio(realObjective, modelObjective):\n    modelImprove = -modelObjective\n    realImprove = -realObjective\n    if modelObjective > 0:\n        print('Model objective increased.  Debug if you see this.')\n        return realImprove / -modelImprove\n    return realImprove / modelImprove\n\n\ndef _updated_trust_region_size(trSize, rho, stepType, settings):\n    if not rho >= settings.eta2:  # write it this way to handle NaNs\n        return trSize * settings.t1\n    if rho > settings.eta3 and is_on_boundary(stepType):\n        return trSize * settings.t2\n    return trSize\n\n\ndef _step_is_acceptable(rho, optimality, previousOptimality, settings):\n    sufficientDecrease = rho >= settings.eta1\n    optimalityDecrease = rho >= 0 and optimality <= previousOptimality\n    return sufficientDecrease or optimalityDecrease\n\n\ndef bound_constrained_trust_region_minimize(objective, x, bounds, settings, callback=None):"),
+    ("        modelImprove = -modelObjective\n        realImprove = -realObjective\n\n        rho = realImprove / modelImprove\n\n        if modelObjective > 0:\n            print('Model objective increased.  Debug if you see this.')\n            rho = realImprove / -modelImprove\n            #exit(1)\n            \n        if not rho >= settings.eta2:  # write it this way to handle NaNs\n            trSize *= settings.t1\n        elif rho > settings.eta3 and is_on_boundary(stepType):\n            trSize *= settings.t2\n\n        willAccept = rho >= settings.eta1 or (rho >= 0 and realOptimality <= prevOptimality)\n",
+     '        rho = _reduction_ratio(realObjective, modelObjective)\n        trSize = _updated_trust_region_size(trSize, rho, stepType, settings)\n        willAccept = _step_is_acceptable(rho, realOptimality, prevOptimality, settings)\n'),
+    ('        y = x + s\n        realObjective = incremental_objective(s)\n        gy = gradient(y)\n        R = project(y - gy, bounds) - y\n        realOptimality = np.linalg.norm(R)\n',
+     '        xTrial = s + x\n        realObjective = incremental_objective(s)\n        gTrial = objective.gradient(xTrial)\n        realOptimality = np.sqrt((xTrial - project(xTrial - gTrial, bounds))@(xTrial - project(xTrial - gTrial, bounds)))\n'),
+    ('        if is_converged(objective, y, realObjective, modelObjective,\n                        realOptimality, modelOptimality, spgIters, trSizeUsed,\n                        settings):\n            if callback: callback(y, objective)\n            return y, True\n',
+     '        converged = is_converged(objective, xTrial, realObjective, modelObjective,\n                                 realOptimality, modelOptimality, spgIters, trSizeUsed,\n                                 settings)\n        if converged:\n            if callback:\n                callback(xTrial, objective)\n            result = (xTrial, True)\n            return result\n'),
+    ('        if willAccept:\n            x = y\n            g = gy\n            o = objective.value(x)\n',
+     '        if not willAccept:\n            pass\n        else:\n            x, g = xTrial, gTrial\n            o = objective.value(xTrial)\n'),
+]
+
+_REFACTOR_B = [
+    ('    z = cauchyStep\n    xNew = x + z\n    Bz = hess_vec_func(z)\n    d = r + Bz\n    q = r@z + 0.5*z@Bz\n    chi2 = subproblem_optimality(xNew, x, d, bounds, trSize)\n',
+     '    z = cauchyStep\n    Bz = hess_vec_func(z)\n    d = r + Bz\n    q = r@z + 0.5*z@Bz\n    chi = project_onto_tr(x + z - d, x, bounds, trSize) - (x + z)\n    chi2 = chi@chi\n'),
+    ('    line_search = nonmonotone_line_search if settings.spg_use_nonmonotone else kouri_exact_line_search\n',
+     ''),
+    ('        s = project_onto_tr(xNew - lam*d, x, bounds, trSize) - xNew\n',
+     '        base = x + z\n        target = project_onto_tr(base - lam*d, xk=x, bounds=bounds, trSize=trSize)\n        s = target - base\n'),
+    ('        alpha = line_search(ds, sBs, q, qMax, settings)\n        alpha = min(1.0, alpha) if sBs > 0 else 1.0\n\n        z += alpha*s\n        d += alpha*Bs\n        q += alpha*(ds + 0.5*alpha*sBs)\n        xNew = x + z\n\n        chi2 = subproblem_optimality(xNew, x, d, bounds, trSize)\n',
+     '        if sBs > 0:\n            if settings.spg_use_nonmonotone:\n                stepLength = nonmonotone_line_search(ds, sBs, q, qMax, settings)\n            else:\n                stepLength = kouri_exact_line_search(ds, sBs, q, qMax, settings)\n            if stepLength > 1.0:\n                stepLength = 1.0\n        else:\n            stepLength = 1.0\n\n        z = z + stepLength*s\n        d = d + stepLength*Bs\n        q += stepLength*(ds + 0.5*stepLength*sBs)\n\n        chi2 = subproblem_optimality(x + z, x, d, bounds, trSize)\n'),
+]
+
+_REFACTOR_C = [
+    ('    lb = bounds[:,0]\n    ub = bounds[:,1]\n    x = np.maximum(lb, np.minimum(x, ub))\n    return x\n',
+     '    return np.clip(x, bounds[:,0], bounds[:,1])\n'),
+    ("    d = project(x, bounds) - xk\n    dd = d@d\n    if dd <= trSize*trSize:\n        return project(x, bounds)\n\n    def f(t):\n        r = project(xk + t*(x - xk), bounds) - xk\n        return r@r - trSize*trSize\n\n    #t = ScalarRootFind.rtsafe(f, x, np.array([0.0, 1.0]), rtsafeSettings)\n    t, results = optimize.brentq(f, 0.0, 1.0, full_output=True)\n    # print('Brent method iterations', results.iterations)\n    #if not results.converged:\n    #    raise RuntimeError('TrustRegionSPG: Root finder failed')\n    return project(xk + t*(x - xk), bounds)\n",
+     '    xp = project(x, bounds)\n    d = xp - xk\n    if d@d > trSize*trSize:\n        ray = lambda t: project((1 - t)*xk + t*x, bounds)\n        residual = lambda t: (ray(t) - xk)@(ray(t) - xk) - trSize**2\n        t, results = optimize.brentq(residual, 0.0, 1.0, full_output=True)\n        xp = ray(t)\n    return xp\n'),
+    ("        i = 0\n        search = True\n        while search:\n            # print('i', i)\n            alpha *= cutback\n            s = project(x - alpha*g, bounds) - x\n            i += 1\n            search = m(s) > mu0*g@s and i < maxLineSearchIters\n        if i == maxLineSearchIters:\n",
+     '        i = 0\n        while True:\n            alpha = alpha*cutback\n            xProj = project(x - alpha*g, bounds)\n            s = xProj - x\n            i += 1\n            if not (m(s) > mu0*g@s and i < maxLineSearchIters):\n                break\n        if i == maxLineSearchIters:\n'),
+]
+
+_REFACTOR_D = [
+    ('    xBar0 = objective.scaling * x0\n    lBar = objective.scaling * lowerBounds\n    uBar = objective.scaling * upperBounds\n',
+     '    scaling = objective.scaling\n    xBar0 = x0 * scaling\n'),
+    ('    bounds = np.column_stack((lBar, uBar))\n        \n    xBar, solverSuccess = bound_constrained_trust_region_minimize(objective, xBar0, bounds, settings,\n                                                   callback=callback)\n',
+     '    xBar, solverSuccess = bound_constrained_trust_region_minimize(\n        objective, xBar0, settings=settings, callback=callback,\n        bounds=np.column_stack((scaling*lowerBounds, upperBounds*scaling)))\n'),
+]
+
+_REFACTOR_E = [
+    ('    if realOptimality < settings.tol:\n        print_min_banner(realO,',
+     '    converged = realOptimality < settings.tol\n    if converged:\n        print_min_banner(realO,'),
+    ("        print('') # a bit of output formatting\n            \n        return True\n    return False\n",
+     "        print('') # a bit of output formatting\n    return converged\n"),
+]
+
+
+_REFACTOR_F = [
+    ('    trSize = settings.tr_size\n    triedNewPrecond = False\n    \n    gradient = objective.gradient\n\n    g = gradient(x)\n    o = objective.value(x)\n    R = project(x - g, bounds) - x\n    prevOptimality = np.linalg.norm(R)\n',
+     '    trSize = settings.tr_size\n    triedNewPrecond = False\n\n    def report(point):\n        if callback:\n            callback(point, objective)\n\n    def optimality(point, gradientAtPoint):\n        return np.linalg.norm(point - project(point - gradientAtPoint, bounds))\n\n    gradient = objective.gradient\n\n    g = gradient(x)\n    o = objective.value(x)\n    prevOptimality = optimality(x, g)\n'),
+    ('                    trSize, settings):\n        if callback: callback(x, objective)\n        return x, True\n',
+     '                    trSize, settings):\n        report(x)\n        return x, True\n'),
+    ('    for i in range(settings.max_trust_iters):\n        # minimize 0.5*(2*r + J_sd)*d = r + 0.5*dJd\n        \n        if settings.use_incremental_objective:',
+     '    iteration = 0\n    while iteration < settings.max_trust_iters:\n        iteration += 1\n        o = objective.value(x)\n        if settings.use_incremental_objective:'),
+    ('        gy = gradient(y)\n        R = project(y - gy, bounds) - y\n        realOptimality = np.linalg.norm(R)\n',
+     '        gy = gradient(y)\n        realOptimality = optimality(y, gy)\n'),
+    ('            if callback: callback(y, objective)\n            return y, True\n',
+     '            report(y)\n            return y, True\n'),
+    ('            x = y\n            g = gy\n            o = objective.value(x)\n            prevOptimality = realOptimality\n            triedNewPrecond = False\n            if callback: callback(x, objective)\n',
+     '            x, g, prevOptimality = y, gy, realOptimality\n            triedNewPrecond = False\n            report(x)\n'),
+    ('                print("The trust region is still too small.  Accepting, but be careful.")\n                if callback: callback(x, objective)\n                return x, False\n',
+     '                print("The trust region is still too small.  Accepting, but be careful.")\n                report(x)\n                return x, False\n'),
+]
+
+_REFACTOR_G = [
+    ('    for i in range(settings.max_spg_iters):\n',
+     '    i = -1\n    while i + 1 < settings.max_spg_iters:\n        i += 1\n'),
+    ('        alpha = min(1.0, alpha) if sBs > 0 else 1.0\n',
+     '        alpha = np.where(sBs > 0, np.minimum(alpha, 1.0), 1.0)\n'),
+]
+
+_REFACTOR_H = [
+    ('    x = np.maximum(lb, np.minimum(x, ub))\n    return x\n',
+     '    return np.clip(x, a_min=lb, a_max=ub)\n'),
+    ('    bounds = np.column_stack((lBar, uBar))\n',
+     '    bounds = np.vstack((lBar, uBar)).T\n'),
+]
+
+_REFACTOR_J = [
+    ('        willAccept = rho >= settings.eta1 or (rho >= 0 and realOptimality <= prevOptimality)\n',
+     '        if rho >= settings.eta1:\n            willAccept = True\n        elif rho >= 0 and realOptimality <= prevOptimality:\n            willAccept = True\n        else:\n            willAccept = False\n'),
+]
+
+_REFACTOR_K = [
+    ('        willAccept = rho >= settings.eta1 or (rho >= 0 and realOptimality <= prevOptimality)\n',
+     '        willAccept = (rho >= settings.eta1) | ((rho >= 0) & (prevOptimality >= realOptimality))\n'),
+]
+
+_REFACTOR_L = [
+    ("        modelImprove = -modelObjective\n        realImprove = -realObjective\n\n        rho = realImprove / modelImprove\n\n        if modelObjective > 0:\n            print('Model objective increased.  Debug if you see this.')\n            rho = realImprove / -modelImprove\n",
+     "        if modelObjective > 0:\n            print('Model objective increased.  Debug if you see this.')\n            rho = -realObjective / modelObjective\n        else:\n            rho = realObjective / modelObjective\n"),
+    ('            x = y\n            g = gy\n            o = objective.value(x)\n            prevOptimality = realOptimality\n',
+     '            prevOptimality = realOptimality\n            o = objective.value(y)\n            g = gy\n            x = y\n'),
+]
+
+
+_REFACTOR_M = [
+    ('def bound_constrained_trust_region_minimize(objective, x, bounds, settings, callback=None):',
+     'def _next_state(objective, accepted, x, g, o, optimality, y, gy, yOptimality, callback):\n    if not accepted:\n        return x, g, o, optimality\n    if callback: callback(y, objective)\n    return y, gy, objective.value(y), yOptimality\n\n\ndef bound_constrained_trust_region_minimize(objective, x, bounds, settings, callback=None):'),
+    ('        if willAccept:\n            x = y\n            g = gy\n            o = objective.value(x)\n            prevOptimality = realOptimality\n            triedNewPrecond = False\n            if callback: callback(x, objective)\n',
+     '        x, g, o, prevOptimality = _next_state(objective, willAccept, x, g, o, prevOptimality, y, gy, realOptimality, callback)\n        if willAccept:\n            triedNewPrecond = False\n'),
+    ('                print("The trust region is still too small.  Accepting, but be careful.")\n                if callback: callback(x, objective)\n                return x, False\n                    \n    print("Reached the maximum number of trust region iterations.")\n    if settings.check_stability:\n        objective.check_stability(x)\n\n        if callback: callback(x, objective)\n    return x, False\n',
+     '                print("The trust region is still too small.  Accepting, but be careful.")\n                if callback: callback(x, objective)\n                break\n    else:\n        print("Reached the maximum number of trust region iterations.")\n        if settings.check_stability:\n            objective.check_stability(x)\n\n            if callback: callback(x, objective)\n    return x, False\n'),
+]
 
 
 def variants(repo):
     from optilint.selftest import Variant, sub, sub_in_func, alpha_rename, reformat, commute
     S = "optimism/TrustRegionSPG.py"
-    T = DRV.func
+    T = DRIVER
     return [
         Variant("True at small-radius exit", S,
                 sub_in_func(T, "                if callback: callback(x, objective)\n                return x, False",
@@ -418,6 +603,73 @@ def variants(repo):
         Variant("p assigned before warm start", S,
                 sub_in_func("solve", "        dxBar = WarmStart.warm_start_increment(objective,", "        objective.p = p\n        dxBar = WarmStart.warm_start_increment(objective,"),
                 "D1/T2-parameters-before-solve"),
+        # ---- further breaking edits
+        Variant("trust region centred at the moving point", S,
+                sub_in_func("solve_spg_subproblem", "s = project_onto_tr(xNew - lam*d, x, bounds, trSize) - xNew", "s = project_onto_tr(xNew - lam*d, xNew, bounds, trSize) - xNew"),
+                "D3/T9-feasible-by-construction"),
+        Variant("step cap 2 instead of 1", S, sub_in_func("solve_spg_subproblem", "alpha = min(1.0, alpha) if sBs > 0 else 1.0", "alpha = min(2.0, alpha) if sBs > 0 else 1.0"), "D3/T9-feasible-by-construction"),
+        Variant("SPG direction from the wrong base point", S,
+                sub_in_func("solve_spg_subproblem", "s = project_onto_tr(xNew - lam*d, x, bounds, trSize) - xNew", "s = project_onto_tr(xNew - lam*d, x, bounds, trSize) - x"),
+                "D3/T9-feasible-by-construction"),
+        Variant("Cauchy step and gradient exchanged at the SPG call", S,
+                sub_in_func(T, "            x, cauchyPoint, g, bounds, hess_vec_func,", "            x, g, cauchyPoint, bounds, hess_vec_func,"), "D3/T9-feasible-by-construction"),
+        Variant("success returns the old iterate", S,
+                sub_in_func(T, "            if callback: callback(y, objective)\n            return y, True", "            if callback: callback(y, objective)\n            return x, True"),
+                "D1/T1-guarded-success"),
+        Variant("tolerance squared in the test", S, sub_in_func("is_converged", "if realOptimality < settings.tol:", "if realOptimality < settings.tol**2:"), "D1/T1-convergence-test"),
+        Variant("NaN passes the convergence test", S, sub_in_func("is_converged", "if realOptimality < settings.tol:", "if not realOptimality >= settings.tol:"), "D1/T1-convergence-test"),
+        Variant("both clamp bounds are the lower column", S, sub_in_func("project", "    ub = bounds[:,1]", "    ub = bounds[:,0]"), "D3/T9-feasible-by-construction"),
+        Variant("negative acceptance threshold", S, sub_in_func(T, "willAccept = rho >= settings.eta1 or", "willAccept = rho >= -settings.eta1 or"), "D2/T8-descent"),
+        Variant("accepted iterate not reported", S,
+                sub_in_func(T, "            triedNewPrecond = False\n            if callback: callback(x, objective)\n", "            triedNewPrecond = False\n"), "D3/T2-reported-iterate"),
+        Variant("reference objective updated for rejected steps too", S,
+                sub_in_func(T, "        if willAccept:\n            x = y\n            g = gy\n            o = objective.value(x)\n",
+                            "        o = objective.value(y)\n        if willAccept:\n            x = y\n            g = gy\n"), "D2/T8-descent"),
+        Variant("NaN ratio accepted", S, sub_in_func(T, "willAccept = rho >= settings.eta1 or (rho >= 0 and realOptimality <= prevOptimality)",
+                                                   "willAccept = not rho < settings.eta1 or (rho >= 0 and realOptimality <= prevOptimality)"), "D4/T12-nan-polarity"),
+        Variant("bound columns exchanged in solve", S, sub_in_func("solve", "bounds = np.column_stack((lBar, uBar))", "bounds = np.column_stack((uBar, lBar))"),
+                "D3/T9-feasible-by-construction"),
+        Variant("start point not scaled", S, sub_in_func("solve", "    xBar0 = objective.scaling * x0", "    xBar0 = 1.0 * x0"), "D3/T9-feasible-by-construction"),
+        Variant("trial point measured at another point", S, sub_in_func(T, "        gy = gradient(y)\n        R = project(y - gy, bounds) - y", "        gy = gradient(y)\n        R = project(x - gy, bounds) - x"),
+                "D1/T1-guarded-success"),
+        # ---- further behaviour-preserving refactorings (helpers, guard clauses, temporaries, equivalent forms, keywords)
+        Variant("driver: ratio / radius / acceptance helpers, renamed trial point, tuple assignment", S, _chain(*_REFACTOR_A), None),
+        Variant("SPG: no xNew, z = z + ..., line search in branches, cap by comparison", S, _chain(*_REFACTOR_B), None),
+        Variant("projections: np.clip, inverted guard with lambdas, while True / break", S, _chain(*_REFACTOR_C), None),
+        Variant("solve: temporaries, keyword call, bounds built inline", S, _chain(*_REFACTOR_D), None),
+        Variant("is_converged returns the comparison", S, _chain(*_REFACTOR_E), None),
+        Variant("driver: report helper, measure closure, while loop, reference value recomputed at the loop top", S, _chain(*_REFACTOR_F), None),
+        Variant("SPG: while loop with counter, np.where / np.minimum cap", S, _chain(*_REFACTOR_G), None),
+        Variant("np.clip with keywords, bounds = vstack(...).T", S, _chain(*_REFACTOR_H), None),
+        Variant("acceptance as if / elif / else", S, _chain(*_REFACTOR_J), None),
+        Variant("acceptance with | and &, comparison mirrored", S, _chain(*_REFACTOR_K), None),
+        Variant("ratio with cancelled signs in if / else, accept block reordered", S, _chain(*_REFACTOR_L), None),
+        Variant("callback tested with `is not None`", S,
+                lambda s: s.replace("if callback: callback(", "if callback is not None: callback(") if s.count("if callback: callback(") >= 3 else None, None),
+        Variant("accept block in a helper returning the new state, single failure exit via break / for-else", S, _chain(*_REFACTOR_M), None),
+        # ---- breaking edits on top of refactored code
+        Variant("refactored SPG without the cap", S, _chain(*(_REFACTOR_B + [("            if stepLength > 1.0:\n                stepLength = 1.0\n", "")])),
+                "D3/T9-feasible-by-construction"),
+        Variant("refactored acceptance helper without rho >= 0", S,
+                _chain(*(_REFACTOR_A + [("    optimalityDecrease = rho >= 0 and optimality <= previousOptimality", "    optimalityDecrease = optimality <= previousOptimality")])),
+                "D2/T8-descent"),
+        Variant("state helper returns a stale objective value", S,
+                _chain(*(_REFACTOR_M + [("    return y, gy, objective.value(y), yOptimality", "    return y, gy, objective.value(x), yOptimality")])), "D2/T8-descent"),
+        Variant("report helper not called after acceptance", S,
+                _chain(*(_REFACTOR_F + [("            triedNewPrecond = False\n            report(x)\n", "            triedNewPrecond = False\n")])), "D3/T2-reported-iterate"),
+        Variant("radius helper does not shrink", S, _chain(*(_REFACTOR_A + [("        return trSize * settings.t1\n", "        return trSize\n")])), "D4/T12-nan-polarity"),
+        Variant("radius helper tests rho < eta2", S,
+                _chain(*(_REFACTOR_A + [("    if not rho >= settings.eta2:  # write it this way to handle NaNs\n        return trSize * settings.t1",
+                                          "    if rho < settings.eta2:\n        return trSize * settings.t1")])), "D4/T12-nan-polarity"),
+        Variant("ray lambda without projection", S,
+                _chain(*(_REFACTOR_C + [("        ray = lambda t: project((1 - t)*xk + t*x, bounds)", "        ray = lambda t: (1 - t)*xk + t*x")])), "D3/T9-feasible-by-construction"),
+        Variant("measure closure without projection", S,
+                _chain(*(_REFACTOR_F + [("        return np.linalg.norm(point - project(point - gradientAtPoint, bounds))", "        return np.linalg.norm(gradientAtPoint)")])),
+                "D1/T1-guarded-success"),
+        Variant("all of the above together", S, _chain(*(_REFACTOR_A + _REFACTOR_B + _REFACTOR_C + _REFACTOR_D + _REFACTOR_E)), None),
+        Variant("feasible but different: Cauchy cut-back scales the step", S,
+                sub_in_func("find_generalized_cauchy_point", "            alpha *= cutback\n            s = project(x - alpha*g, bounds) - x\n            ss = s@s",
+                            "            alpha *= cutback\n            s = cutback*s\n            ss = s@s"), None),
         Variant("reformat", S, reformat(), None),
         Variant("alpha-rename driver", S, alpha_rename(T), None),
         Variant("alpha-rename solve_spg_subproblem", S, alpha_rename("solve_spg_subproblem"), None),
